@@ -19,6 +19,12 @@ pub mod ledger;
 pub mod schemapairs;
 #[cfg(not(kani))]
 pub mod native_misc;
+#[cfg(not(kani))]
+pub mod native_abi;
+#[cfg(not(kani))]
+pub mod native_schemacodec;
+#[cfg(all(not(kani), feature = "xnative"))]
+pub mod native_crypto;
 
 #[macro_use]
 mod reg;
@@ -46,6 +52,20 @@ pub fn native_registry() -> Vec<(&'static str, fn(&mut crate::src::EnumSrc))> {
 }
 #[cfg(not(kani))]
 fn native_misc_registry() -> Vec<(&'static str, fn(&mut crate::src::EnumSrc))> {
+    let mut v = native_misc_registry0();
+    #[cfg(feature = "xnative")]
+    v.extend(vec![
+        // n(nencrypted_passwords, "C14,C01", "savefile::save_encrypted_file; savefile::load_encrypted_file; CryptoWriter::new/write/flush/drop; CryptoReader::new/read (real ring AES-256-GCM, real bzip2)", "small-scope documents (payload 0..140 kB, i.e. one and two crypto chunks) x 6 passwords for saving x 6 for loading");
+        ("nencrypted_passwords", (|s: &mut crate::src::EnumSrc| crate::native_crypto::encrypted_passwords(s)) as fn(&mut crate::src::EnumSrc)),
+        // n(nencrypted_tamper, "C14,C07", "savefile::load_encrypted_file; CryptoReader::new; CryptoReader::read (real ring)", "small-scope documents; every byte offset for files <= 160 bytes, else offsets around the nonce, size headers, chunk boundary and end; 3 bit patterns; truncation at the same offsets");
+        ("nencrypted_tamper", (|s: &mut crate::src::EnumSrc| crate::native_crypto::encrypted_tamper(s)) as fn(&mut crate::src::EnumSrc)),
+        // n(ncompressed_container, "C01,C07", "savefile::save_compressed; Serializer::save_impl (bzip2 branch); Deserializer::load_impl (bzip2 branch)", "small-scope documents; every cut for files <= 160 bytes, else 12 cut points");
+        ("ncompressed_container", (|s: &mut crate::src::EnumSrc| crate::native_crypto::compressed_container(s)) as fn(&mut crate::src::EnumSrc)),
+    ]);
+    v
+}
+#[cfg(not(kani))]
+fn native_misc_registry0() -> Vec<(&'static str, fn(&mut crate::src::EnumSrc))> {
     vec![
         // n(nschema_library, "C12", "hand-written WithSchema impls: Vec, tuples, Option, arrays, Box, String, BTreeMap, BTreeSet, VecDeque, Duration", "small-scope values");
         ("nschema_library", (|s: &mut crate::src::EnumSrc| crate::schemaread::schema_library(s)) as fn(&mut crate::src::EnumSrc)),
@@ -65,6 +85,14 @@ fn native_misc_registry() -> Vec<(&'static str, fn(&mut crate::src::EnumSrc))> {
         ("nintro_library", (|s: &mut crate::src::EnumSrc| crate::native_misc::intro_library(s)) as fn(&mut crate::src::EnumSrc)),
         // n(nintro_navigate, "C17", "Introspector::do_introspect; Introspector::impl_get_frames; IntrospectionResult::total_index; IntrospectionResult::total_len", "3 objects, sequences of <= 3 commands (first 2,000,000 combinations in enumeration order) (Nothing, Up, SelectNth, ExpandElement) with depths/indices from {0,1,2,5,usize::MAX}, with and without child limit");
         ("nintro_navigate", (|s: &mut crate::src::EnumSrc| crate::native_misc::intro_navigate(s)) as fn(&mut crate::src::EnumSrc)),
+        // n(nabi_pairs, "C09,C10,C11", "AbiConnection::new_internal; AbiConnection::analyze_and_create; arg_layout_compatible; abi_entry_light; savefile_abi_exportable output (caller and callee trampolines, closure wrappers, boxed-closure wrappers); parse_return_value_impl", "one interface in versions 0 and 1 (struct argument and return type gaining a field), 4 caller/implementation combinations x 7 methods x small-scope argument values");
+        ("nabi_pairs", (|s: &mut crate::src::EnumSrc| crate::native_abi::abi_pairs(s)) as fn(&mut crate::src::EnumSrc)),
+        // n(nabi_wide, "C09,C11", "AbiConnection::analyze_and_create (by-reference mask); savefile_abi_exportable output for a 40-argument method", "one 40-argument method; one argument and one string length vary");
+        ("nabi_wide", (|s: &mut crate::src::EnumSrc| crate::native_abi::abi_wide(s)) as fn(&mut crate::src::EnumSrc)),
+        // n(nabi_incompatible, "C10", "AbiConnection::analyze_and_create (argument count, argument type, return type checks)", "3 incompatible signature pairs and the identical pair");
+        ("nabi_incompatible", (|s: &mut crate::src::EnumSrc| crate::native_abi::abi_incompatible(s)) as fn(&mut crate::src::EnumSrc)),
+        // n(nschemacodec, "C13", "Serialize for Schema/SchemaStruct/SchemaEnum/Variant/Field/SchemaArray/SchemaPrimitive; Deserialize for the same; new_schema_deserializer", "schema trees of depth <= 3 built from 8 leaf kinds, 12 inner kinds, <= 2 fields, <= 2 variants, layout annotations present/absent; library formats 0, 1, 2");
+        ("nschemacodec", (|s: &mut crate::src::EnumSrc| crate::native_schemacodec::schema_codec(s)) as fn(&mut crate::src::EnumSrc)),
         // n(pairs_diff, "C05,C13,C15", "diff_schema; diff_enum; diff_fields; diff_primitive", "pairs of one-variant enums with <= 2 primitive fields; discriminants/widths from small domains");
         ("pairs_diff", (|s: &mut crate::src::EnumSrc| crate::schemapairs::diff_pairs(s)) as fn(&mut crate::src::EnumSrc)),
         // n(pairs_layout, "C11", "Schema::layout_compatible; SchemaEnum/Variant/Field::layout_compatible", "pairs of one-variant enums with <= 2 primitive fields, two offsets");
